@@ -21,6 +21,6 @@ echo "== demo with the change (expect FAIL)" >> "$res"
 env -u GOFLAGS go test -mod=mod -vet=off $RACE -count=1 -timeout 60m -run 'Seed|ZZ' "./$PKG" 2>&1 | grep -v '^20[0-9][0-9]/' | tail -8 >> "$res"
 rm -f "$WT/$PKG/zz_seed_demo_test.go"
 echo "== existing suite with the change (expect ok)" >> "$res"
-env -u GOFLAGS go test -mod=mod -vet=off -count=1 -timeout 90m ./... 2>&1 | grep '^ok\|^FAIL\|^--- FAIL\|^panic' >> "$res"
+env -u GOFLAGS go test -p 1 -mod=mod -vet=off -count=1 -timeout 90m ./... 2>&1 | grep '^ok\|^FAIL\|^--- FAIL\|^panic' >> "$res"
 cd /; git -C /repo worktree remove --force "$WT"
 echo "confirmed $ID"; cat "$res"
